@@ -730,15 +730,14 @@ UnitsPtr modelsEquivalentUnits(const ModelPtr &model, const UnitsPtr &units)
 
 void updateComponentsVariablesUnitsNames(const std::string &name, const ComponentPtr &component, const UnitsPtr &units)
 {
-    for (size_t variableIndex = 0; variableIndex < component->variableCount(); ++variableIndex) {
-        auto variable = component->variable(variableIndex);
-        if (component->isImport()) {
-            auto importModel = component->importSource()->model();
-            auto importComponent = importModel->component(component->importReference());
-            variable = importComponent->variable(variable->name());
-        }
-        if (variable->units()->name() == name) {
-            variable->setUnits(units);
+    // The variables of an imported component stand for variables of the model it is imported from: their units belong to that
+    // model, which is left as it is, and are transferred when the imported component is itself flattened.
+    if (!component->isImport()) {
+        for (size_t variableIndex = 0; variableIndex < component->variableCount(); ++variableIndex) {
+            auto variable = component->variable(variableIndex);
+            if (variable->units()->name() == name) {
+                variable->setUnits(units);
+            }
         }
     }
     for (size_t index = 0; index < component->componentCount(); ++index) {
